@@ -139,7 +139,7 @@ impl Check for C11 {
         });
         // the hash as it is *used towards the session service*: the real MojangAdapter against the loopback mock
         // (hook H1), for server ids that a configuration can contain (surrounding blanks, Unicode, empty)
-        let ids = ["", "lobby", " lobby", "lobby ", "\tlobby\n", " ", "a b", "grüße", "-", "0", "LOBBY", "lobby\u{a0}"];
+        let ids = ["", "lobby", " lobby", "lobby ", "\tlobby\n", " ", "a b", "grüße", "-", "0", "LOBBY", "lobby\u{a0}", "exactly-twenty-chars!", "twenty-one-characters", "a-server-id-that-is-considerably-longer-than-twenty-characters", "ääääääääääääääääääääää"];
         let rounds: u64 = tier.pick(25, 2_000);
         let mut adapter_cases = 0u64;
         let mut x = seed | 1;
